@@ -1,4 +1,7 @@
+#[cfg(not(aquatic_verif))]
 use std::fs::File;
+#[cfg(aquatic_verif)]
+use aquatic_verif_rt::fs::File;
 use std::io::{BufRead, BufReader};
 use std::path::PathBuf;
 use std::sync::Arc;
